@@ -30,6 +30,11 @@ def _tetra(rng):
     return v @ synth.rotation(rng).T
 
 
+def pre_build():
+    import translate
+    return [translate.gen_bond_wrap()]
+
+
 def gen_cases(rng, tier):
     n = {'quick': 70, 'thorough': 1400, 'search': 50}[tier]
     cases = []
